@@ -504,6 +504,11 @@ func (c *Client) validVirtualChannelProposal(prop *VirtualChannelProposalMsg, ou
 	if err := validIndexMap(indexMap, numPeers, parentState.NumParts()); err != nil {
 		return err
 	}
+	// Our balance in the virtual channel must be taken from, and returned to,
+	// our own balance in the parent channel.
+	if indexMap[ourIdx] != parent.Idx() {
+		return errors.New("index map does not map us to our index in the parent channel")
+	}
 
 	virtualBals := transformBalances(prop.InitBals.Balances, parentState.NumParts(), indexMap)
 	if err := parentState.AssertGreaterOrEqual(virtualBals); err != nil {
